@@ -82,7 +82,8 @@ def stepOp (maxCache : Nat) (a : Acc) (j : Json) : Except String Acc := do
       | _ => true
     let first := (j.getObjValAs? Bool "same_as_first").toOption.getD true
     let unch := (j.getObjValAs? Bool "inputs_unchanged").toOption.getD true
-    let ok := fresh && first && unch
+    let rebuilt := (j.getObjValAs? Bool "same_as_rebuilt").toOption.getD true
+    let ok := fresh && first && unch && rebuilt
     -- keep the model's cache in step with the texts this call parsed (observed as new cache keys)
     let newKeys : List (Bool × String) := match j.getObjVal? "impl_new_keys" with
       | .ok (.arr ks) => ks.toList.filterMap (fun e => match e with
@@ -94,6 +95,7 @@ def stepOp (maxCache : Nat) (a : Acc) (j : Json) : Except String Acc := do
     let a := { a with agree := a.agree && sizesOK a j }
     let why := if !ok && a.why.isEmpty then
         (if !unch then s!"target/spec/scope changed at op {a.nOps}"
+         else if !rebuilt then s!"outcome differs from the same call on freshly built spec/target objects (op {a.nOps})"
          else if !first then s!"outcome differs from the first time this call was made (op {a.nOps})"
          else s!"outcome differs from the same call in a fresh interpreter (op {a.nOps})") else a.why
     return { a with holds := a.holds && ok, why := why }
